@@ -51,6 +51,18 @@ ASSUMPTIONS = [
 
 # additional theorem modules per property (namespace Cxx), beyond CoseProofs.Props.Cxx
 DEEP = {
+    "C02": ["CoseProofs.Deep.Tbs"],
+    "C03": ["CoseProofs.Deep.Tbs"],
+    "C04": ["CoseProofs.FactsTie"],
+    "C05": ["CoseProofs.Deep.Reencode"],
+    "C08": ["CoseProofs.Deep.Headers"],
+    "C09": ["CoseProofs.Deep.Reencode"],
+    "C10": ["CoseProofs.Deep.Tbs", "CoseProofs.FactsTie"],
+    "C12": ["CoseProofs.FactsTie"],
+    "C13": ["CoseProofs.Deep.Headers", "CoseProofs.FactsTie"],
+    "C15": ["CoseProofs.FactsTie"],
+    "C17": ["CoseProofs.FactsTie"],
+    "C18": ["CoseProofs.FactsTie"],
 }
 
 
